@@ -569,6 +569,10 @@ def monitor_log(cfg, events, term, mons):
                 flag("serial-overlap", "input filter (%s) invocation %s began at log position %d while another is running" % (modes[0], w[1], pos))
             inside[0] += 1
             open_inv[w[1]] = pos
+            # an input invocation holds a token from its start: running input invocations + emitted items still in the pipe <= the limit
+            if inside[0] + live > limit:
+                flag("live>limit", "%d input invocation(s) running and %d emitted item(s) still in the pipe (limit %d) when invocation %s began at log position %d" % (
+                    inside[0], live, limit, w[1], pos))
         elif w[0] == "ie":
             if w[1] not in open_inv:
                 flag("once", "ie of unknown invocation %s" % w[1])
@@ -706,6 +710,10 @@ def make_configs(ck):
                     dm = dm % 10 + rng.choice([20, 30, 10, 30])
                 cfgs.append((modes, limit, items, threads, rng.randrange(1 << 30), dm))
                 j += 1
+        # one filter only (the end-of-pipe token return is also the input filter's), small limits, more threads than tokens, lingering bodies
+        for modes in ("p", "o", "i"):
+            for limit, items, threads in [(1, 12, 4), (2, 16, 6), (3, 20, 8), (2, 9, 4)]:
+                cfgs.append((modes, limit, items, threads, rng.randrange(1 << 30), rng.choice([2, 3, 4, 12])))
         # longer pipelines
         for modes in ["iopio", "pipip", "ioioi", "oiiopi", "ppipoip", "iiiiii", "opopop"]:
             for limit, items, threads in [(2, 9, 4), (5, 40, 8)]:
